@@ -182,6 +182,14 @@ theorem stepLine_once {inc : Inc} (hi : OnceGrows inc) (cur : String) (s r : Sta
       | ok st2 =>
         simp only [hn] at h; cases h
         exact hi name st1 st2 hn x (by simpa [flush_once hf] using hx)
+  | rejected e =>
+    simp only [stepLine] at h
+    cases hf : flush st active <;> simp [hf] at h
+  | null =>
+    simp only [stepLine] at h
+    cases hf : flush st active with
+    | error e => simp [hf] at h
+    | ok st1 => simp only [hf] at h; cases h; simpa [flush_once hf] using hx
 
 theorem foldLines_once {inc : Inc} (hi : OnceGrows inc) (cur : String) (s r : State × List PTok)
     (ls : List Line) (h : foldLines inc cur s ls = .ok r) : ∀ x ∈ s.1.once, x ∈ r.1.once := by
